@@ -278,4 +278,39 @@ example : ∀ pw pr, decodeProg Facts.cors_prog_Wrap = some pw → decodeProg Fa
 #print axioms C07_immutable
 #print axioms C07_published_immutable
 
+
+/-! ### Who writes through a receiver -/
+
+/-- The methods of the library that write through their receiver (regenerated on every run: an assignment rooted at the
+receiver or at a local pointer into it, or a call of such a method on something rooted at the receiver).  Audit:
+
+  * `(*Middleware).Reconfigure`, `(*Middleware).SetDebug` — the two writers of the lock model (`C07_facts`);
+  * `(*internalConfig).validate*` — run by `newInternalConfig` on a fresh value, before publication (`C07_published_immutable`);
+  * `origins.(*Tree).Insert`, `origins.(*node).add`, `origins.(*node).upsertEdge`, `util.(*SortedSet).Add` — reached only from
+    those validators (`cors_icfgWrites` lists the calls by field and kind).
+
+Every other method of `origins.Tree`, `origins.node`, `util.SortedSet`, `util.Set` — `Contains`, `Elems`, `IsEmpty`, `IndexAfter`,
+`ToSlice`, … — is read-only on its receiver, which is why `Config()` and the request path, which call them on the *published*
+configuration outside the lock, race with nothing.  A method that starts to write (a memo filled by `Elems`, a cache in
+`Contains`) changes this fact. -/
+def auditedMutators : List Bytes := [
+  Spec.b "cors.(*Middleware).Reconfigure",
+  Spec.b "cors.(*Middleware).SetDebug",
+  Spec.b "cors.(*internalConfig).validateMaxAge",
+  Spec.b "cors.(*internalConfig).validateMethods",
+  Spec.b "cors.(*internalConfig).validateOrigins",
+  Spec.b "cors.(*internalConfig).validatePreflightStatus",
+  Spec.b "cors.(*internalConfig).validateRequestHeaders",
+  Spec.b "cors.(*internalConfig).validateResponseHeaders",
+  Spec.b "origins.(*Tree).Insert",
+  Spec.b "origins.(*node).add",
+  Spec.b "origins.(*node).upsertEdge",
+  Spec.b "util.(*SortedSet).Add"
+]
+
+/-- **C07 (mutators).** -/
+theorem C07_mutators : Facts.cors_receiverMutators = auditedMutators := by decide +kernel
+
+#print axioms C07_mutators
+
 end Cors
